@@ -147,11 +147,11 @@ func goBaseOf(t types.Type) (base string, optional, array bool) {
 }
 
 type paramProgram struct {
-	P       *Program
-	O       *Oracle
-	Parsers map[string]*ParserModel
+	P        *Program
+	O        *Oracle
+	Parsers  map[string]*ParserModel
 	Handlers []*handlerInfo
-	Router  *RouterModel
+	Router   *RouterModel
 }
 
 func loadParamPrograms(r *Report, prefix string) (*S3, []*paramProgram) {
